@@ -222,6 +222,23 @@ def multi_valued_lines(j):
                     ok = ok and float(np.max(np.abs(np.asarray(I[i].S, dtype=float) + S_))) <= 1e-12 * sc and \
                         float(np.max(np.abs(I[i].exp(0.9).A @ Twist3(S_).exp(0.9).A - np.eye(4)))) <= TOL * sc
             check(j, ok, "Twist3[N].inv", "n=3", "value-i-is-not-the-negation-of-twist-i", detail, cid)
+        # scalar multiples of a Twist3 holding several unit twists (int and float, both orders): value i is k times twist
+        # i, and exp of it is twist i exponentiated with k
+        for kname, kk in (("int", 2), ("float", 0.5), ("int3", 3)):
+            for oname, fn in (("S*k", lambda: Twist3([t[0] for t in trio]) * kk), ("k*S", lambda: kk * Twist3([t[0] for t in trio]))):
+                cid = ("Twist3[N]" + oname, kname)
+                Mk = guard(j, "Twist3[N].%s" % oname, "n=3;k=%s" % kname, detail, cid, fn)
+                if Mk is None:
+                    continue
+                try:
+                    ok = len(Mk) == 3
+                    if ok:
+                        for i, (S_, u, p, sc) in enumerate(trio):
+                            ok = ok and float(np.max(np.abs(np.asarray(Mk[i].S, dtype=float) - kk * S_))) <= 1e-12 * sc and \
+                                float(np.max(np.abs(Mk[i].exp().A - Twist3(S_).exp(kk).A))) <= TOL * sc
+                except Exception:  # noqa: BLE001
+                    ok = False
+                check(j, ok, "Twist3[N].%s" % oname, "n=3;k=%s" % kname, "value-i-is-not-k-times-twist-i", detail, cid)
 
 
 def prismatic_case(j, d, alen):
